@@ -148,3 +148,49 @@ package oxia
 //@ assert at call doMultiShardGet#0: ghost(chancap, ch) >= 1 && ghost(closed, ch) == 0
 //@ assert at call doSingleShardGet#0: ghost(chancap, ch) >= 1 && ghost(closed, ch) == 0
 //@ modifies *
+
+//@ func newDeleteOptions
+//@ trusted
+//@ modifies nothing
+//@ ensures result != nil && fresh(result)
+
+//@ func newDeleteRangeOptions
+//@ trusted
+//@ modifies nothing
+//@ ensures result != nil && fresh(result)
+
+//@ func newPutOptions(opts) (po, err)
+//@ trusted
+//@ modifies nothing
+//@ ensures err == nil ==> (po != nil && fresh(po))
+
+//@ func toSecondaryIndexes
+//@ trusted
+//@ modifies nothing
+
+//@ func clientImpl.getShardForKey
+//@ trusted
+//@ modifies nothing
+
+// C20: the other single-result operations hand out a channel that takes its one result without a
+// reader (the capacity of a channel never changes, so the postcondition pins the make).
+//@ func clientImpl.Put(c, key, value, options) (res)
+//@ property C20
+//@ chanstate
+//@ requires c.writeBatchManager != nil && c.shardManager != nil && c.sessions != nil
+//@ ensures ghost(chancap, result) >= 1
+//@ modifies *
+
+//@ func clientImpl.Delete(c, key, options) (res)
+//@ property C20
+//@ chanstate
+//@ requires c.writeBatchManager != nil && c.shardManager != nil
+//@ ensures ghost(chancap, result) >= 1
+//@ modifies *
+
+//@ func clientImpl.DeleteRange(c, minKeyInclusive, maxKeyExclusive, options) (res)
+//@ property C20
+//@ chanstate
+//@ requires c.writeBatchManager != nil && c.shardManager != nil
+//@ ensures ghost(chancap, result) >= 1
+//@ modifies *
